@@ -187,13 +187,20 @@ Proof.
   destruct (mem_term _ _) as [t|[]]; auto; destruct (gp_seg _ =? 0); cbn; auto.
 Qed.
 
+Lemma raft_reopen_lsm s g :
+  s_imms (fst (raft_reopen s g)) = s_imms s /\ s_active (fst (raft_reopen s g)) = s_active s /\
+  s_logptr (fst (raft_reopen s g)) = s_logptr s.
+Proof.
+  unfold raft_reopen. destruct (negb _ && negb _); [auto|]. destruct (greplay _ _ _); cbn; auto.
+Qed.
+
 Lemma invl_same s s' :
   s_imms s' = s_imms s -> s_active s' = s_active s -> s_logptr s' = s_logptr s -> InvL s -> InvL s'.
 Proof. intros H1 H2 H3 [Ha Hb]. constructor; rewrite ?H1, ?H2, ?H3; assumption. Qed.
 
 Lemma step_invl s o : InvL s -> fresh_rotations (s_active s) [o] -> InvL (fst (step s o)).
 Proof.
-  intros HI Hf. destruct o as [k v|n| |g first es|g h|g idx| ]; cbn [step fst].
+  intros HI Hf. destruct o as [k v|n| |g first es|g h|g idx| |g]; cbn [step fst].
   - apply (invl_same s); auto.
   - destruct HI as [Ha Hb]. cbn in Hf. destruct Hf as [Hlt _]. constructor; cbn [s_imms s_active s_logptr].
     + apply sorted_snoc; assumption.
@@ -207,16 +214,18 @@ Proof.
   - destruct (raft_set_hs_lsm s g h) as (H1 & H2 & H3). apply (invl_same s); auto.
   - destruct (raft_compact_lsm s g idx) as (H1 & H2 & H3). apply (invl_same s); auto.
   - apply (invl_same s); auto.
+  - destruct (raft_reopen_lsm s g) as (H1 & H2 & H3). apply (invl_same s); auto.
 Qed.
 
 Lemma step_active s o :
   s_active (fst (step s o)) = match o with WRotate n => n | _ => s_active s end.
 Proof.
-  destruct o as [k v|n| |g first es|g h|g idx| ]; cbn [step fst]; try reflexivity.
+  destruct o as [k v|n| |g first es|g h|g idx| |g]; cbn [step fst]; try reflexivity.
   - destruct (flush_shape s) as [[-> _]|(id & rest & _ & _ & Hact & _)]; auto.
   - apply raft_append_lsm.
   - apply raft_set_hs_lsm.
   - apply raft_compact_lsm.
+  - apply raft_reopen_lsm.
 Qed.
 
 Lemma run_invl ops : forall s, InvL s -> fresh_rotations (s_active s) ops -> InvL (run s ops).
@@ -261,7 +270,7 @@ Qed.
 (** without raft groups *)
 Lemma step_groups_nil s o : is_raft_op o = false -> s_groups s = [] -> s_groups (fst (step s o)) = [].
 Proof.
-  intros Ho Hg. destruct o as [k v|n| |g first es|g h|g idx| ]; cbn [step fst s_groups]; try discriminate; auto.
+  intros Ho Hg. destruct o as [k v|n| |g first es|g h|g idx| |g]; cbn [step fst s_groups]; try discriminate; auto.
   destruct (flush_shape s) as [[-> _]|(id & rest & _ & _ & _ & Hgr & _)]; [exact Hg|]. rewrite Hgr. exact Hg.
 Qed.
 
